@@ -76,16 +76,15 @@ pub fn honest_case<P: G>(cfg: &Cfg, wit: &Wit, ctx: &Ctx, rng_model: &str, verbo
     // reference verifier on the same bytes
     let rst = ref_statement(&built.statement);
     match refbp::ref_decode_allow_zero_rounds(&bytes) {
-        None => res.violate("ref-decode", "reference decoder cannot parse the prover's output"),
+        None => res.binding_note("ref-decode", "reference decoder cannot parse the prover's output (C15 / C19)"),
         Some(rp) => {
             let mut t = ctx.transcript();
             let chk = refbp::ref_verify(&mut t, &rst, &rp);
             res.validated += 1;
             if chk.verdict != RefVerdict::Accept {
-                res.outcome = "ref-rejected".into();
-                res.violate(
+                res.binding_note(
                     "ref-verify",
-                    format!("reference verifier does not accept the library's honest proof: {:?}", chk.verdict),
+                    format!("reference verifier does not accept the library's honest proof: {:?} (the library deviates self-consistently from the published protocol: C02 / C19)", chk.verdict),
                 );
             }
             // challenges the library's prover drew == challenges R derives
@@ -96,9 +95,9 @@ pub fn honest_case<P: G>(cfg: &Cfg, wit: &Wit, ctx: &Ctx, rng_model: &str, verbo
                 expect.push(ch.e);
                 res.validated += 1;
                 if drawn != expect {
-                    res.violate(
+                    res.binding_note(
                         "challenges",
-                        format!("prover drew {} challenges that differ from the reference transcript's {}", drawn.len(), expect.len()),
+                        format!("prover drew {} challenges that differ from the reference transcript's {} (C04 / C19)", drawn.len(), expect.len()),
                     );
                 }
             }
@@ -168,9 +167,9 @@ pub fn prover_binding_f(cfg: &Cfg, wit: &Wit, ctx: &Ctx, rng_model: &str, res: &
         if out.proof.d1 != rp.d1 {
             diff.push("d1");
         }
-        res.violate(
+        res.binding_note(
             "prover-binding",
-            format!("reference prover fed with the read-back nonces does not reproduce the library's proof; differing elements: {:?}", diff),
+            format!("reference prover fed with the read-back nonces does not reproduce the library's proof; differing elements: {:?} (C02 / C19)", diff),
         );
     }
 }
